@@ -115,9 +115,25 @@ def lean_sources():
         yield from sorted((LEAN / d).rglob('*.lean'))
 
 
-def grep_forbidden():
+def import_closure(roots):
+    """Local Lean files reachable through `import DesperModel.* / DesperProofs.* / Driver.*`."""
+    seen, todo = [], list(roots)
+    while todo:
+        f = todo.pop()
+        if f in seen or not f.exists():
+            continue
+        seen.append(f)
+        for m in re.finditer(r'^import\s+((?:DesperModel|DesperProofs|Driver)[A-Za-z0-9_.]*)',
+                             strip_comments(f.read_text()), flags=re.M):
+            todo.append(LEAN / (m.group(1).replace('.', '/') + '.lean'))
+    return sorted(seen)
+
+
+def grep_forbidden(pid=None):
+    files = list(lean_sources()) if pid is None else import_closure(
+        [LEAN / 'DesperProofs' / 'Props' / f'{pid}.lean', LEAN / 'Driver' / 'Main.lean'])
     hits = []
-    for f in lean_sources():
+    for f in files:
         for n, line in enumerate(strip_comments(f.read_text()).splitlines(), 1):
             if FORBIDDEN.search(line):
                 hits.append(f'{f.relative_to(LEAN)}:{n}: {line.strip()}')
@@ -175,7 +191,7 @@ def lean_audit(pid):
     bad = {n: a for n, a in axioms.items() if not set(a) <= ALLOWED_AXIOMS}
     missing = [n for n in names if n not in axioms]
     return {'ok': rc == 0 and not bad and not missing, 'names': names, 'axioms': axioms,
-            'bad': bad, 'missing': missing, 'forbidden_tokens': grep_forbidden(),
+            'bad': bad, 'missing': missing, 'forbidden_tokens': grep_forbidden(pid),
             'log': out if rc != 0 else ''}
 
 
@@ -183,7 +199,11 @@ def run_driver(model, scenarios):
     """scenarios: list of list[str] -> list of list[str] observations (model side)."""
     if not scenarios:
         return []
-    if not DRIVER.exists():
+    for _ in range(60):          # a concurrent `lake build` may be relinking it right now
+        if DRIVER.exists():
+            break
+        time.sleep(1)
+    else:
         raise MachineryError(f'driver not built: {DRIVER}')
     buf = []
     for i, lines in enumerate(scenarios):
@@ -389,7 +409,7 @@ def run_check(pid, tier, seed):
     used = sorted({x for v in cov.get('axioms', {}).values() for x in v})
     cov['trusted_base'] = [
         'Lean 4.33.0 kernel; axioms used by the theorems of this property: %s' % (used or 'none'),
-        'no sorry/admit/axiom/native_decide/bv_decide in lean/ (grep on every run)',
+        'no sorry/admit/axiom/native_decide/bv_decide in the Lean files this property and the driver import (grep on every run)',
         'model<->code tie: ' + getattr(prop, 'TIE', 'correspondence check (differential run of the '
                                       'Lean model and the real desper code on generated scenarios)'),
     ] + list(getattr(prop, 'TRUSTED', []))
